@@ -749,7 +749,10 @@ fn gen_rep(rng: &mut Rng, re: &Regex) -> Rep {
 
 fn gen_cfg(rng: &mut Rng) -> GenCfg {
     let mut cfg = GenCfg::swarm(rng);
-    cfg.allow_keepout_in_look = false;
+    // \K inside a look-behind is the listed C08 finding (items that overlap or never end: there
+    // is no replacement to define then); inside a look-ahead the span stays ordered and the
+    // statement applies as it stands
+    cfg.allow_keepout_in_look = rng.chance(1, 3);
     cfg.allow_cond_in_atomic = true;
     cfg.numeric_names = rng.chance(1, 3);
     cfg
@@ -770,7 +773,7 @@ fn job(seed: u64, i: u64) -> (JobOut, Option<Violation>) {
             (gen::CORPUS[((i / 2) as usize) % gen::CORPUS.len()].to_string(), None)
         } else {
             let ast = gen::gen_pattern(&mut rng, &cfg);
-            if ast.facts().keepout_in_look {
+            if ast.facts().keepout_in_lookbehind {
                 continue;
             }
             (ast.render(), Some(ast))
